@@ -372,12 +372,20 @@ def gen_request_case(g, tier, focus=None, c17=None):
         rep = _random.Random(g.rint(0, 2 ** 30))
         for k in range(nmsg):
             st = (g.r.getstate(), g.sp.getstate())
+            flip[0] = False
             yield k
             if rep.random() < 0.3:
                 g.r.setstate(st[0]); g.sp.setstate(st[1])
                 g.count("req_repeated")
+                # ... now and then over the OTHER transport of the listener entry, with the very same Request-URI text:
+                # what is decided for a request depends on the transport that received it, not on what was decided for
+                # the same text before
+                flip[0] = rep.random() < 0.5
+                if flip[0]:
+                    g.count("req_repeated_over_other_transport")
                 yield k
     occ = -1
+    flip = [False]
     for mi in schedule():
         occ += 1
         pi = g.rint(0, len(w.listeners) - 1)
@@ -387,6 +395,10 @@ def gen_request_case(g, tier, focus=None, c17=None):
             # the other way round): one Proxy serves both, and "the receiving listener" is the transport that received it
             lst = Listener("TCP" if lst.proto == "UDP" else "UDP", lst.addr, lst.port + 1, lst.rcvd)
             g.count("req_over_sibling_transport")
+        lst_ru = lst                      # the listener the Request-URI text is written for
+        if flip[0]:
+            base_l = w.listeners[pi]
+            lst = base_l if (lst.proto != base_l.proto) else Listener("TCP" if base_l.proto == "UDP" else "UDP", base_l.addr, base_l.port + 1, base_l.rcvd)
         peer_ip = g.pick(["127.0.2.1", "127.0.2.2", "127.0.2.3"])
         peer_port = g.pick([w.port_ua, 5060, g.rint(1024, 65000)])
         method = g.pick(["INVITE", "OPTIONS", "MESSAGE", "REGISTER", "SUBSCRIBE", "X-CUSTOM", "INFO"])
@@ -406,8 +418,8 @@ def gen_request_case(g, tier, focus=None, c17=None):
             kind, whole = "abs", g.pick(["tel:112", "tel:+15551234", "tel:112;phone-context=x.test", "tel:+15550100", "tel:+15550100", "tel:15550100", "tel:+1(555)0100"])
             ru = whole
         elif ru_kind == "listener":
-            user, host = g.pick(["", "x"]), lst.addr
-            port = g.pick([lst.port, lst.port, 5099])
+            user, host = g.pick(["", "x"]), lst_ru.addr
+            port = g.pick([lst_ru.port, lst_ru.port, 5099])
             ru = sip_uri_text(g, user, host, port if (port != 5060 or g.chance(0.5)) else None)
         elif ru_kind == "regex":
             user, host = "sip%d" % g.rint(0, 99), g.pick(["pbx.test", "pbxXtest", "pbx.test.evil"])
@@ -449,6 +461,9 @@ def gen_request_case(g, tier, focus=None, c17=None):
         if force_service:
             to_host = "nowhere.test"
         sr = w.static_route(to_host)
+        to_port = g.pick([None, None, None, 5060, 5070, 5099, w.port_hop])
+        if to_port is not None:
+            g.count("to_uri_with_port")
         # ---- Route set ----
         route_mode = g.pick(["none", "none", "none", "none", "own", "own", "own+next", "next", "own+next+more", "nearmiss+next", "alias+next", "own+own+next"])
         if force_service:
@@ -548,7 +563,7 @@ def gen_request_case(g, tier, focus=None, c17=None):
             exp_routes = s1
         # ---- render ----
         sm = g.sp_pick([0, 0, 1, 2, 3, 4])
-        base_h = std_headers(g, method, turi="sip:bob@" + to_host, spell_mode=sm)
+        base_h = std_headers(g, method, turi="sip:bob@" + to_host + (":%d" % to_port if to_port is not None else ""), spell_mode=sm)
         via_lines = layout(g, NAMES_VIA, in_via_texts)
         route_lines = layout(g, NAMES_ROUTE, routes)
         rr_lines = layout(g, NAMES_RR, rrs_in)
@@ -717,6 +732,14 @@ def gen_dialog_case(g, tier, c17=None):
     lst = w.listeners[0]
     nd = g.pick([1, 2, 3, 5, 12]) if tier == "quick" else g.pick([1, 2, 5, 20, 50])
     ds = [Dialog(g, i) for i in range(nd)]
+    for j in range(1, nd):
+        # concurrent dialogs whose Call-IDs (and now and then tags) are extensions of one another
+        if g.chance(0.35):
+            o = ds[g.rint(0, j - 1)]
+            ds[j].callid = o.callid + g.pick(["0", "-1", "x", ".b", "1"])
+            if g.chance(0.3):
+                ds[j].ftag, ds[j].ttag = o.ftag, o.ttag
+            g.count("dlg_callid_extends_another")
     ua_ip = "127.0.2.1"
     evn = 0
     steps = g.rint(4, 14) * nd if nd <= 5 else g.rint(3, 6) * nd
